@@ -1098,6 +1098,7 @@ func (in *Interp) bytesContent(b BytesV) NF {
 		return NF{}
 	}
 	in.checkView(b.o)
+	in.p.accessBytes(in, b.o, false)
 	full := in.p.res(b.o.content)
 	off, n := in.p.resLin(b.off), in.p.resLin(b.n)
 	if off.isConst() && off.c == 0 && n.eq(in.p.lenOf(full)) {
@@ -1127,6 +1128,7 @@ func (in *Interp) checkView(o *ByteObj) {
 // bytesWrite overwrites window bytes [at, at+len(data)) of b's backing object.
 func (in *Interp) bytesWrite(b BytesV, at Lin, data NF) {
 	in.checkView(b.o)
+	in.p.accessBytes(in, b.o, true)
 	full := in.p.res(b.o.content)
 	start := in.p.resLin(b.off.add(at))
 	end := in.p.resLin(start.add(in.p.lenOf(data)))
